@@ -121,7 +121,11 @@ def spec_frame(I, payload_atoms, thr, enabled, any_writer=False):
 class Probe(Packet):
     """A registered packet class whose decoder records exactly what it is given."""
     packet_name = 'probe'
-    id = 7
+
+    @classmethod
+    def get_id(cls, context):
+        # version-dependent, like every real packet class: 7 under the reader's context, 9 under any other
+        return 7 if context == 'CTX' else 9
 
     def read(self, file_object):
         self.got = file_object.read()
@@ -324,6 +328,14 @@ class ReadFrame(Unit):
                 E.check('read.known-class', type(pkt) is Probe)
                 E.check('read.known-fields', SBytes.of(getattr(pkt, 'got', b'?')) == SBytes([fields]),
                         note='the decoder is given exactly the field bytes of this frame')
+                # a delivered packet of a registered class keeps the id OF ITS CLASS AND CONTEXT: re-targeted to another
+                # version (a relay, a replayed capture) it carries that version's id (seeded change C05-r9: an instance
+                # attribute `id` stamped by the reader shadows the version-dependent one)
+                had = pkt.__dict__.get('context')
+                pkt.__dict__['context'] = 'OTHER'
+                E.check('read.known-id-follows-context', I.equals(I.getattr_(pkt, 'id'), 9),
+                        note='packet.id of a registered class must remain get_id(packet.context)')
+                pkt.__dict__['context'] = had
             else:
                 E.check('read.unknown-generic', type(pkt) is Packet, note='unknown id: a generic Packet')
                 E.check('read.unknown-id', I.equals(I.getattr_(pkt, 'id'), pid))
@@ -334,6 +346,10 @@ class ReadFrame(Unit):
 
     def replay(self, model, label):
         rp = None
+        if label.startswith('read.known-id'):
+            rp = replay_id_follows_context()
+            if rp['confirmed']:
+                return rp
         for enabled, thr in ((True, 64), (False, None), (True, 0)):
             for chunk in (None, 1, 3):
                 rp = replay_stream(enabled, thr, [0, 7, 300, 7], [5, 100, 70, 0], cut=None, chunk=chunk)
@@ -347,7 +363,10 @@ class ReadFrame(Unit):
         return rp
 
     def bounded(self, rng, tier):
-        fails, cnt = [], 0
+        fails, cnt = [], 1
+        rp = replay_id_follows_context()
+        if rp['confirmed']:
+            fails.append(dict(call=rp['call'], observed=rp['observed'], witness='id-follows-context'))
         for enabled, thr in ((False, None), (True, -1), (True, 0), (True, 1), (True, 64), (True, 1 << 20)):
             for chunk in (1, 2, 3, 7, None):
                 ids = [rng.choice([0, 7, 8, 127, 128, 300]) for _ in range(6)]
@@ -364,6 +383,40 @@ class ReadFrame(Unit):
                         fails.append(dict(call='vanilla-rule writer: ' + rp['call'], observed=rp['observed'], witness='read-frame-vanilla'))
         return dict(name='C01.read.streams', evaluations=cnt, failures=fails[:2],
                     bound='6 threshold settings x read chunkings {1,2,3,7,whole} x 6-frame streams with sizes around the threshold')
+
+
+def replay_id_follows_context():
+    """A real play-state reactor reads a clientbound keep-alive under protocol 47; the delivered packet, re-targeted to
+    protocol 757 (packet.context = ...), must report and write the id its class has under 757."""
+    import io
+    from minecraft.networking.connection import Connection, ConnectionContext, PlayingReactor
+    from minecraft.networking.packets import clientbound, PacketBuffer
+    from minecraft.networking.types import VarInt
+    conn = Connection('localhost', 25565, username='u')
+    conn.context = ConnectionContext(protocol_version=47)
+    KA = clientbound.play.KeepAlivePacket
+    frame = PacketBuffer()
+    KA(context=conn.context, keep_alive_id=42).write(frame)       # uncompressed frame: length, id, fields
+    from pyvc.harness import native_call
+    orig = select.select
+    select.select = lambda r, w, x, t=None: (r, [], [])
+    try:
+        k, pkt = native_call(PlayingReactor(conn).read_packet, io.BytesIO(frame.get_writable()), 0)
+    finally:
+        select.select = orig
+    if k != 'ok' or type(pkt) is not KA:
+        return dict(confirmed=False, call='keep-alive under 47 (scenario did not run: %s %r)' % (k, pkt), observed='')
+    other = ConnectionContext(protocol_version=757)
+    pkt.context = other
+    want = KA.get_id(other)
+    out = PacketBuffer()
+    k2, v2 = native_call(pkt.write, out)
+    wrote = out.get_writable()
+    if pkt.id != want or k2 != 'ok' or len(wrote) < 2 or wrote[1] != want:
+        return dict(confirmed=True, call='clientbound KeepAlivePacket read by a PlayingReactor under protocol 47, then '
+                    'packet.context = ConnectionContext(757) and packet.write()',
+                    observed='packet.id = %r, written bytes %s; the id of this class under 757 is 0x%02x' % (pkt.id, wrote.hex(), want))
+    return dict(confirmed=False, call='id of a delivered packet after re-targeting', observed='conforms')
 
 
 class ChunkedFile(object):
